@@ -1370,14 +1370,15 @@ func sameOwner(p *Prog, a, b *types.Var) bool {
 
 // checkClientTableDiscipline (C09.R10): Stop releases every backend connection only if the table of connections is
 // swept completely and nothing falls out of it unseen.
-//  (a) The terminal sweep - the loop that stops the connections before the component's done latch is closed - ranges
-//      over a snapshot of the table that is read while the table's mutex is held: publishers test the quit latch and
-//      publish under that mutex, so a snapshot read outside it can miss a connection that is published a moment later
-//      and that nobody will ever stop.
-//  (b) A single address is deleted from the table only by the goroutine that ran the connection registered under it
-//      (after its run returned). Any other deleter lets a replacement be registered under the address while the old
-//      connection is still winding down; the old goroutine then deletes the replacement, which is in no table any
-//      more - Stop does not stop it and its goroutines survive.
+//
+//	(a) The terminal sweep - the loop that stops the connections before the component's done latch is closed - ranges
+//	    over a snapshot of the table that is read while the table's mutex is held: publishers test the quit latch and
+//	    publish under that mutex, so a snapshot read outside it can miss a connection that is published a moment later
+//	    and that nobody will ever stop.
+//	(b) A single address is deleted from the table only by the goroutine that ran the connection registered under it
+//	    (after its run returned). Any other deleter lets a replacement be registered under the address while the old
+//	    connection is still winding down; the old goroutine then deletes the replacement, which is in no table any
+//	    more - Stop does not stop it and its goroutines survive.
 func checkClientTableDiscipline(c *Ctx, rule string) {
 	p := c.P
 	up := p.Named(redisPkg, "upstream")
@@ -1445,50 +1446,38 @@ func checkClientTableDiscipline(c *Ctx, rule string) {
 			}
 			nsweep++
 			site := fmt.Sprintf("%s terminal sweep#%d ranges over a snapshot read under the table mutex", fnKey(fn), nsweep)
-			origin, _ := stripConv(resolveCell(snap)).(ssa.Instruction)
+			snapV := stripConv(resolveCell(snap))
+			origin, _ := snapV.(ssa.Instruction)
+			if prm, isPrm := snapV.(*ssa.Parameter); isPrm {
+				// the sweep is a helper that is handed the snapshot: every caller reads it under the mutex
+				okAll, ncall := true, 0
+				var at token.Pos = in.Pos()
+				inCone := map[*ssa.Function]bool{closer: true}
+				for _, cf := range staticCalleesDeep(closer, 2) {
+					inCone[cf] = true
+				}
+				for _, ed := range p.callersOf(fn) {
+					// only the callers on the way to closing the done latch form the terminal sweep
+					if p.isTestFn(ed.Caller.Func) || !inCone[ed.Caller.Func] {
+						continue
+					}
+					ncall++
+					args := ed.Site.Common().Args
+					idx := paramIndex(fn, prm)
+					if idx < 0 || idx >= len(args) || !snapshotUnderLock(le, mu, isTableMap, args[idx], 0) {
+						okAll = false
+						at = ed.Site.Pos()
+					}
+				}
+				c.Check(okAll && ncall > 0, rule, site, at, "every caller hands over a snapshot read while "+mu.Name()+" is held", "the connections that Stop stops are taken from a snapshot of the table read without "+mu.Name()+": a connection that is being established passes its quit test, and is published under the mutex right after the snapshot - it is in no snapshot, nobody stops it, its goroutines and its socket outlive Stop and the request that triggered it is never answered")
+				return
+			}
 			if origin == nil {
 				c.Undecided(rule, site, in.Pos(), "cannot find where the snapshot is read")
 				return
 			}
-			// the read itself: the call that loads the table (an atomic load inside), possibly returned through
-			// helpers that take the lock themselves
-			var underLock func(v ssa.Value, depth int) bool
-			underLock = func(v ssa.Value, depth int) bool {
-				v = stripConv(resolveCell(stripConv(v)))
-				call, ok := v.(*ssa.Call)
-				if !ok || depth > 3 {
-					if instr, ok := v.(ssa.Instruction); ok {
-						return le.heldAt(instr)[mu] >= lockRead
-					}
-					return false
-				}
-				if le.heldAt(call)[mu] >= lockRead {
-					return true
-				}
-				g := calleeFn(call.Common())
-				if g == nil || !isModFn(g) || g.Blocks == nil {
-					return false
-				}
-				okAll, nret := true, 0
-				eachInstr(g, func(_ *ssa.BasicBlock, _ int, x ssa.Instruction) {
-					ret, isRet := x.(*ssa.Return)
-					if !isRet || len(ret.Results) == 0 {
-						return
-					}
-					for _, r := range returnedValues(ret) {
-						if !isTableMap(r.Type()) {
-							continue
-						}
-						nret++
-						if !underLock(r, depth+1) {
-							okAll = false
-						}
-					}
-				})
-				return okAll && nret > 0
-			}
 			ov, _ := origin.(ssa.Value)
-			c.Check(ov != nil && underLock(ov, 0), rule, site, origin.Pos(), "the snapshot is read while "+mu.Name()+" is held", "the connections that Stop stops are taken from a snapshot of the table read without "+mu.Name()+": a connection that is being established passes its quit test, and is published under the mutex right after the snapshot - it is in no snapshot, nobody stops it, its goroutines and its socket outlive Stop and the request that triggered it is never answered")
+			c.Check(ov != nil && snapshotUnderLock(le, mu, isTableMap, ov, 0), rule, site, origin.Pos(), "the snapshot is read while "+mu.Name()+" is held", "the connections that Stop stops are taken from a snapshot of the table read without "+mu.Name()+": a connection that is being established passes its quit test, and is published under the mutex right after the snapshot - it is in no snapshot, nobody stops it, its goroutines and its socket outlive Stop and the request that triggered it is never answered")
 		})
 	}
 	if nsweep == 0 {
@@ -1590,4 +1579,41 @@ func checkDrainKeepsAccepted(c *Ctx, rule string) {
 	if n == 0 {
 		c.Unresolved(rule, "no read of listener.drain")
 	}
+}
+
+// snapshotUnderLock: the value is a read of the connection table made while mu is held - the call that loads the
+// table (an atomic load inside), possibly returned through helpers that take the lock themselves.
+func snapshotUnderLock(le *lockEngine, mu *types.Var, isTableMap func(types.Type) bool, v ssa.Value, depth int) bool {
+	v = stripConv(resolveCell(stripConv(v)))
+	call, ok := v.(*ssa.Call)
+	if !ok || depth > 3 {
+		if instr, ok := v.(ssa.Instruction); ok {
+			return le.heldAt(instr)[mu] >= lockRead
+		}
+		return false
+	}
+	if le.heldAt(call)[mu] >= lockRead {
+		return true
+	}
+	g := calleeFn(call.Common())
+	if g == nil || !isModFn(g) || g.Blocks == nil {
+		return false
+	}
+	okAll, nret := true, 0
+	eachInstr(g, func(_ *ssa.BasicBlock, _ int, x ssa.Instruction) {
+		ret, isRet := x.(*ssa.Return)
+		if !isRet || len(ret.Results) == 0 {
+			return
+		}
+		for _, r := range returnedValues(ret) {
+			if !isTableMap(r.Type()) {
+				continue
+			}
+			nret++
+			if !snapshotUnderLock(le, mu, isTableMap, r, depth+1) {
+				okAll = false
+			}
+		}
+	})
+	return okAll && nret > 0
 }
